@@ -18,7 +18,9 @@ EXPLANATION = (
     "R1 write-order automaton over every CFG path of PdoMap.save (events: INV = COB-ID store with the invalid bit, "
     "COM(k), CNT0 = mapping count zeroed, ENT = mapping entry, CNT = count set to len(map), VAL = COB-ID store without "
     "the invalid bit, SUB): first SDO store is INV, no ENT before CNT0, CNT after the last ENT, VAL last, at most once, "
-    "only under `self.enabled`, SUB only after VAL; R2 flag constants are bits 31/30, RTR flag OR-ed exactly when not "
+    "only under `self.enabled`, SUB only after VAL and on every path after it, entry sub-index counter starts at 1 and is "
+    "advanced exactly once per mapped variable; R2 read(): old map cleared before the loop, loop over sub-indices "
+    "1..count with count and entries from map_array, add_variable(index, subindex, size) under `index and size`; R2 flag constants are bits 31/30, RTR flag OR-ed exactly when not "
     "rtr_allowed at both stores, mapping word index<<16|sub<<8|length in save equals the shifts/masks of read, read "
     "masks 29 id bits and tests each flag == 0; R3 attribute<->sub-index pairs of save and read are equal and equal "
     "{1,2,3,5,6}; R4 subscribe() is guarded by enabled and subscribes (cob_id, on_message), read ends in subscribe() on "
